@@ -75,6 +75,11 @@ func newSeqEnv(mode, scratch string) (*seqEnv, error) {
 		e.colls2[c] = ds2.(*rosmar.Collection)
 	}
 	for _, c := range collNames {
+		if err := e.colls[c].PutDDoc(context.Background(), "vd", viewDDoc()); err != nil {
+			return nil, err
+		}
+	}
+	for _, c := range collNames {
 		fb := newFeedBuf()
 		e.feeds[c] = fb
 		args := sgbucket.FeedArguments{ID: "live-" + c, Backfill: sgbucket.FeedNoBackfill, Terminator: fb.term, DoneChan: fb.done}
@@ -139,17 +144,12 @@ type CollEvs struct {
 	C   string `json:"c"`
 	Evs []Ev   `json:"evs"`
 }
-type AuxObs struct {
-	C    string   `json:"c"`
-	Kind string   `json:"kind"`
-	Rows []string `json:"rows"`
-}
 
 type seqRunner struct {
-	env      *seqEnv
-	tw       *TraceWriter
-	errs     *[]string
-	auxEvery int
+	env  *seqEnv
+	tw   *TraceWriter
+	errs *[]string
+	aux  bool
 }
 
 func absKeyFn(suffix string) func(string) string {
@@ -177,7 +177,7 @@ func (sr *seqRunner) runPath(trNo int, ops []GenOp) error {
 	// path start marker: its CAS is the backfill start of all dumps of this path
 	startCas := map[string]uint64{}
 	for _, c := range collNames {
-		cas, err := env.colls[c].WriteCas("~start"+suffix, 0, 0, []byte(`{"start":1}`), 0)
+		cas, err := env.colls[c].WriteCas("~start"+strings.Replace(suffix, ".", "_", 1), 0, 0, []byte(`{"start":1}`), 0)
 		if err != nil {
 			return fmt.Errorf("start marker: %w", err)
 		}
@@ -319,10 +319,11 @@ func (sr *seqRunner) runPath(trNo int, ops []GenOp) error {
 				step.Dump2 = append(step.Dump2, Dump2Obs{C: c, Start: tr.C(top), Evs: out})
 			}
 		}
-		if sr.auxEvery > 0 {
-			for _, ao := range sr.observeAux(x, suffix) {
-				js := strings.Join(ao.Rows, "|")
-				if prev, ok := prevAux[ao.C+"/"+ao.Kind]; !ok || prev != js {
+		if sr.aux {
+			// SQL queries and views of the target collection (a freshly built view at the end of the path)
+			for _, ao := range sr.observeAux(x, op.Coll, suffix, i == len(ops)-1) {
+				js, _ := jsonNoRank(ao)
+				if prev, ok := prevAux[ao.C+"/"+ao.Kind]; !ok || prev != js || ao.Kind == "viewfresh" {
 					prevAux[ao.C+"/"+ao.Kind] = js
 					step.Aux = append(step.Aux, ao)
 				}
@@ -401,8 +402,6 @@ func (sr *seqRunner) collectLive(x *Ctx, absKey func(string) string, suffix stri
 	return out, nil
 }
 
-func (sr *seqRunner) observeAux(x *Ctx, suffix string) []AuxObs { return nil }
-
 // cmdSeq: vh seq -in paths.json -out trace.ndjson -mode mem|disk|both -workers N -scratch DIR
 func cmdSeq(args []string) error {
 	fs := newFlagSet("seq")
@@ -412,6 +411,7 @@ func cmdSeq(args []string) error {
 	workers := fs.Int("workers", 8, "parallel workers")
 	scratch := fs.String("scratch", "", "scratch dir for on-disk buckets")
 	perEnv := fs.Int("perenv", 200, "paths per bucket")
+	aux := fs.Bool("aux", false, "also observe SQL queries and views after every step")
 	if err := fs.Parse(args); err != nil {
 		return err
 	}
@@ -479,7 +479,7 @@ func cmdSeq(args []string) error {
 					count[j.mode] = 0
 				}
 				count[j.mode]++
-				sr := &seqRunner{env: env, tw: tw}
+				sr := &seqRunner{env: env, tw: tw, aux: *aux}
 				if err := sr.runPath(j.no, j.ops); err != nil {
 					emu.Lock()
 					errs = append(errs, err.Error())
